@@ -255,6 +255,8 @@ def run(ctx):
             conv[p] = (hres[2 * i].get("r"), hres[2 * i + 1].get("r"))
     except Exception as e:
         ctx.notes.append("harness: fallback-binary-only (%s)" % str(e)[:200])
+        ctx.violation("correspondence-mismatch", "the real functions could not be reached through the harness (#[path] inclusion of /repo/src): %s" % str(e)[:300], input={}, concrete=False,
+                      correspondence="harness build / run")
     all_names = set(names)
     for ((kind, p), out), txt in zip(impl, res):
         v = parse_nested(txt)
